@@ -17,6 +17,8 @@ import (
 	"fmt"
 	"os"
 	"reflect"
+	"sort"
+	"strconv"
 	"sync/atomic"
 	"time"
 
@@ -52,7 +54,15 @@ type counters struct {
 type checker struct {
 	r *evid.Run
 	c counters
+	// stopEarly (C10_STOP_ON_VIOLATION=1, mutant runs) skips remaining work items once something was found
+	stopEarly bool
+	// cycleErrorBroken is set when ModuleDeps of a module on a cycle returned no error: ModuleSetToDAG
+	// (and `buf dep graph`) rely on that error to terminate, so they are not called on cyclic closures
+	// any more (a Go stack overflow is fatal and would lose the violation already recorded).
+	cycleErrorBroken atomic.Bool
 }
+
+func (ck *checker) done() bool { return ck.stopEarly && ck.r.ViolationCount() > 0 }
 
 func fromEnum(g enum.Digraph) Graph { return Graph{N: g.N, Adj: g.Adj} }
 
@@ -80,6 +90,9 @@ func (s Spec) targets() []Target {
 			ts = append(ts, Target{"dir", i})
 		}
 		ts = append(ts, Target{"file", i}, Target{"path", i})
+		if s.Layout != "roots" { // with two roots the package directory of one root holds only one of the files
+			ts = append(ts, Target{"pathdir", i})
+		}
 	}
 	return ts
 }
@@ -90,7 +103,10 @@ type item struct {
 }
 
 func run(r *evid.Run) {
-	ck := &checker{r: r}
+	ck := &checker{r: r, stopEarly: os.Getenv("C10_STOP_ON_VIOLATION") != ""}
+	if ck.stopEarly {
+		r.Incomplete("C10_STOP_ON_VIOLATION: remaining work is skipped after the first violation")
+	}
 	r.Rule("one case = (module import digraph, node kinds, v1|v2, plant, target); all digraphs on n nodes x all kind vectors that can exist x both config versions x all targets are run; a case is counted distinct non-trivial when its digraph has an edge or it carries a plant (key = spec/target)")
 	r.Assume("registry commits are self-contained and acyclic (a provider-only module imports only provider modules); kind vectors violating this are filtered and counted")
 	r.Assume("create times of two commits of one name differ (ties are C02's business)")
@@ -100,6 +116,11 @@ func run(r *evid.Run) {
 	maxN := 3
 	if !r.Quick() {
 		maxN = 4
+	}
+	// C10_MAXN caps the number of nodes (development aid; the run is then marked incomplete)
+	if v, err := strconv.Atoi(os.Getenv("C10_MAXN")); err == nil && v >= 1 && v < maxN {
+		maxN = v
+		r.Incomplete("C10_MAXN caps the number of nodes")
 	}
 	r.Set("max_nodes", maxN)
 
@@ -112,13 +133,13 @@ func run(r *evid.Run) {
 		ck.familyGraphs(maxN)
 	}
 	if only == "" || only == "layouts" {
-		ck.familyLayouts()
+		ck.familyLayouts(min(maxN, 3))
 	}
 	if only == "" || only == "plants" {
 		ck.familyPlants(maxN)
 	}
 	if only == "" || only == "cli" {
-		ck.familyCLI()
+		ck.familyCLI(min(maxN, 3))
 	}
 
 	c := &ck.c
@@ -142,17 +163,13 @@ func run(r *evid.Run) {
 	r.Set("clause_duplicate_path_demands_image", c.dupImageDemands.Load())
 	r.Set("clause_missing_import_demands_deps", c.missDepsDemands.Load())
 	r.Set("clause_missing_import_demands_image", c.missImageDemands.Load())
-	for name, v := range map[string]int64{
+	neverExercised(r, map[string]int64{
 		"deps exact": c.depsExact.Load(), "isdirect transitive": c.depsWithTransitive.Load(), "cycle": c.cycleDemanded.Load(),
 		"dag": c.dagExact.Load(), "dag cycle": c.dagCycle.Load(), "local beats pinned": c.precedence.Load(),
 		"newest commit": c.newestCommit.Load(), "images": c.images.Load(), "non-target files": c.imageNonTargetModuleFiles.Load(),
 		"ls-files": c.lsfiles.Load(), "duplicate": c.dupDepsDemands.Load() + c.dupImageDemands.Load(),
 		"missing import": c.missDepsDemands.Load() + c.missImageDemands.Load(),
-	} {
-		if v == 0 && !r.Expired() {
-			r.Incomplete("clause never exercised: " + name)
-		}
-	}
+	})
 }
 
 // ---------------------------------------------------------------------------------------------
@@ -183,6 +200,9 @@ func (ck *checker) familyGraphs(maxN int) {
 	}
 	ctx := context.Background()
 	r.ParallelFor(len(items), 0, func(idx int) {
+		if ck.done() {
+			return
+		}
 		it := items[idx]
 		base := newSpec(it.g, it.kinds, false)
 		if ok, _ := base.valid(); !ok {
@@ -191,9 +211,9 @@ func (ck *checker) familyGraphs(maxN int) {
 		}
 		for _, v2 := range []bool{false, true} {
 			specs := []Spec{newSpec(it.g, it.kinds, v2)}
-			if !v2 && len(base.locals()) >= 2 {
+			if !v2 {
 				for i, k := range it.kinds {
-					if k == KRemote {
+					if k == KRemote && len(base.pinners(i)) >= 2 {
 						for o := 0; o < 2; o++ {
 							s := newSpec(it.g, it.kinds, false)
 							s.TwoCommit, s.TCOrder = i, o
@@ -211,10 +231,10 @@ func (ck *checker) familyGraphs(maxN int) {
 
 // family A': the same oracles on other layouts of the local modules: v2 modules sharing one directory
 // and separated by includes / by excludes; v1beta1 modules with two roots under a buf.work.yaml.
-func (ck *checker) familyLayouts() {
+func (ck *checker) familyLayouts(maxN int) {
 	r := ck.r
 	var specs []Spec
-	for n := 1; n <= 3; n++ {
+	for n := 1; n <= maxN; n++ {
 		for _, eg := range enum.Digraphs(n, false) {
 			g := fromEnum(eg)
 			plain := allKinds(n, []Kind{KLocal, KNamed})
@@ -249,6 +269,9 @@ func (ck *checker) familyLayouts() {
 	r.Set("layout_specs", len(specs))
 	ctx := context.Background()
 	r.ParallelFor(len(specs), 0, func(idx int) {
+		if ck.done() {
+			return
+		}
 		ck.runSpec(ctx, idx, specs[idx])
 		ck.c.layoutSpecs.Add(1)
 	})
@@ -294,17 +317,29 @@ func (ck *checker) runSpec(ctx context.Context, idx int, s Spec) {
 	}
 }
 
-// wantImage bounds the expensive image builds in the quick tier: every target for n <= 2; for n = 3
-// the workspace target and the file target of every local module (dir and path targets are covered by
-// the ls-files oracle, which is compared against the same reference on every case).
+// wantImage bounds the expensive image builds (the ls-files oracle, which is compared against the
+// same reference, runs on every case). Quick: every target for n <= 2; for n = 3 the workspace target
+// and the proto-file target of the lowest-numbered local module. Thorough: every target for n <= 3;
+// for n = 4 the workspace target of the uniform kind vectors.
 func wantImage(r *evid.Run, s Spec, t Target) bool {
-	if !r.Quick() {
-		return s.G.N <= 3 || t.Kind == "all" || t.Kind == "file"
-	}
 	if s.G.N <= 2 {
 		return true
 	}
-	return t.Kind == "all" || t.Kind == "file"
+	if s.G.N == 3 {
+		if !r.Quick() {
+			return true
+		}
+		return t.Kind == "all" || (t.Kind == "file" && t.Node == s.locals()[0])
+	}
+	if t.Kind != "all" {
+		return false
+	}
+	for _, k := range s.Kinds {
+		if k != s.Kinds[0] {
+			return false
+		}
+	}
+	return true
 }
 
 func (ck *checker) violate(sig, what string, b *Built, t Target, c Case) {
@@ -339,7 +374,7 @@ func (ck *checker) checkCase(ctx context.Context, b *Built, t Target, withImage 
 		ck.violate(moduleSetSignature(s, gotMods, wantMods), "module set differs from the reference", b, t, Case{Observed: gotMods, Expected: wantMods})
 	}
 	for i, k := range s.Kinds {
-		if k == KBoth && pinned(s, i) {
+		if k == KBoth && len(s.pinners(i)) > 0 {
 			ck.c.precedence.Add(1)
 		}
 	}
@@ -349,6 +384,9 @@ func (ck *checker) checkCase(ctx context.Context, b *Built, t Target, withImage 
 
 	// --- ModuleDeps of every module of the set
 	for i := range s.Kinds {
+		if !s.present(i) {
+			continue
+		}
 		m := ws.GetModuleForOpaqueID(s.modID(i))
 		if m == nil {
 			continue // already reported by the module set oracle
@@ -359,6 +397,7 @@ func (ck *checker) checkCase(ctx context.Context, b *Built, t Target, withImage 
 		case onCycle:
 			ck.c.cycleDemanded.Add(1)
 			if err == nil {
+				ck.cycleErrorBroken.Store(true)
 				ck.violate("deps/module-on-cycle/no-error", "ModuleDeps of a module on an import cycle returned deps instead of an error", b, t, Case{Module: s.modID(i), Observed: got})
 			} else if cls := errClass(err); cls != "cycle" {
 				ck.violate("deps/module-on-cycle/wrong-error/"+cls, "ModuleDeps of a module on an import cycle returned an error that is not a ModuleCycleError: "+err.Error(), b, t, Case{Module: s.modID(i), Error: err.Error()})
@@ -389,9 +428,15 @@ func (ck *checker) checkCase(ctx context.Context, b *Built, t Target, withImage 
 	}
 
 	// --- ModuleSetToDAG
-	gotDAG, err := observeDAG(ws)
 	dagCycle, wantDAG := s.expectDAG(t)
+	var gotDAG *DAGObs
+	skipDAG := dagCycle && ck.cycleErrorBroken.Load()
+	if !skipDAG {
+		gotDAG, err = observeDAG(ws)
+	}
 	switch {
+	case skipDAG:
+		ck.r.Incomplete("ModuleSetToDAG not called on cyclic closures after ModuleDeps missed a cycle (it would not terminate)")
 	case maskTargets:
 	case dagCycle:
 		ck.c.dagCycle.Add(1)
@@ -473,14 +518,6 @@ func (ck *checker) checkCase(ctx context.Context, b *Built, t Target, withImage 
 	}
 }
 
-// pinned reports whether some buf.lock of the workspace pins node i.
-func pinned(s Spec, i int) bool {
-	if s.V2 {
-		return true
-	}
-	return len(s.locals()) >= 2 // v1: every other local module's buf.lock pins it
-}
-
 type pathFlag struct {
 	Path     string
 	IsImport bool
@@ -544,6 +581,9 @@ func moduleSetSignature(s Spec, got, want []ModObs) string {
 		return "moduleset/wrong-module-count"
 	}
 	for i, k := range s.Kinds {
+		if !s.present(i) {
+			continue
+		}
 		m, ok := gm[s.modID(i)]
 		if !ok {
 			return "moduleset/module-missing/" + k.String()
@@ -584,4 +624,21 @@ func depsSignature(got, want []RefDep) string {
 		}
 	}
 	return "deps/other"
+}
+
+// neverExercised marks the run incomplete for every clause counter that stayed zero (sorted, deterministic).
+func neverExercised(r *evid.Run, m map[string]int64) {
+	if r.Expired() {
+		return
+	}
+	names := make([]string, 0, len(m))
+	for n := range m {
+		names = append(names, n)
+	}
+	sort.Strings(names)
+	for _, n := range names {
+		if m[n] == 0 {
+			r.Incomplete("clause never exercised: " + n)
+		}
+	}
 }
